@@ -123,3 +123,33 @@ def h2p_scen(n, max_rej, prefix=None, deadline_s=None, tag=''):
             'steps': ex.steps, 'returned': out['ret'], 'cut_beyond_bound': log['cut'], 'bad': out['bad'][:5], 'panics': panics,
             'obligations': asserts + out['checks'], 'violable': len(out['bad']) + len(panics), 'samples': out['samples'],
             'mir_hash': {'hash_to_point': fn.hash}}
+
+
+def h2p_concrete_scen(msg_hex, n):
+    """translator validation: the same executor and stubs, but with the concrete SHAKE-256 stream of a concrete message
+    (hashlib); the result is compared with the real hash_to_point by the driver"""
+    import hashlib
+    P = prog()
+    ex = new_exec(P)
+    msgb = bytes.fromhex(msg_hex)
+    stream = hashlib.shake_256(msgb).digest(2 * n + 600)
+    pos = {'p': 0}
+
+    def ov_default(ex, st, fr, args, info): return Opaque('shake', ('fresh',))
+    def ov_update(ex, st, fr, args, info): return UNIT
+    def ov_finalize(ex, st, fr, args, info): return Opaque('xof', (0, ()))
+
+    def ov_read(ex, st, fr, args, info):
+        buf = args[1]; k = ex.slice_len(st, buf); base = buf.rng[0] if buf.rng else 0
+        cur = ex.load(st, buf.loc); e = list(cur.e)
+        for j in range(k):
+            e[base + j] = mkint(stream[pos['p'] + j], 'u8')
+        pos['p'] += k
+        ex.store(st, buf.loc, Seq(cur.kind, e))
+        return UNIT
+    ex.over.update({'Default::default': ov_default, 'Update::update': ov_update, 'ExtendableOutput::finalize_xof': ov_finalize, 'XofReader::read': ov_read})
+    got = []
+    ex.on_return = lambda e, s, rv: got.append([c.f[0].t for c in rv.f[0].e])
+    st = ex.start(P.by_key['hash_to_point'], [temp_ref(Seq('arr', [mkint(b, 'u8') for b in msgb]), (0, len(msgb))), mkint(n, 'usize')])
+    ex.explore(st)
+    return {'tag': 'concrete', 'point': got[0] if got else None, 'paths': ex.paths, 'queries': ex.nq, 'solver_s': 0.0, 'steps': ex.steps}
